@@ -109,6 +109,8 @@ type WriterScript struct {
 	ErrKind string `json:"err_kind,omitempty"`
 	// the destination also has a Flush() error method (which succeeds)
 	Flusher bool `json:"flusher,omitempty"`
+	// the destination also implements io.ReaderFrom (like *bytes.Buffer and *bufio.Writer)
+	ReaderFrom bool `json:"reader_from,omitempty"`
 }
 
 type faultWriter struct {
@@ -152,6 +154,32 @@ func (p flushWriter) Flush() error {
 		p.w.callsAfterErr++
 	}
 	return nil
+}
+
+// readFromWriter: a destination that also has ReadFrom; whatever route the data takes, failures must be reported
+type readFromWriter struct{ w *faultWriter }
+
+func (p readFromWriter) Write(b []byte) (int, error)       { return p.w.write(b) }
+func (p readFromWriter) WriteString(s string) (int, error) { return p.w.write([]byte(s)) }
+func (p readFromWriter) ReadFrom(r io.Reader) (int64, error) {
+	var n int64
+	buf := make([]byte, 512)
+	for {
+		k, err := r.Read(buf)
+		if k > 0 {
+			m, werr := p.w.write(buf[:k])
+			n += int64(m)
+			if werr != nil {
+				return n, werr
+			}
+		}
+		if err == io.EOF {
+			return n, nil
+		}
+		if err != nil {
+			return n, err
+		}
+	}
 }
 
 type plainWriter struct{ w *faultWriter }
@@ -204,6 +232,9 @@ func RunIO(p *bm.Policy, entry string, input []byte, rs ReaderScript, ws WriterS
 		}
 		if ws.Flusher {
 			w = flushWriter{fw}
+		}
+		if ws.ReaderFrom {
+			w = readFromWriter{fw}
 		}
 		res.Err = p.SanitizeReaderToWriter(newScriptReader(input, rs), w)
 		res.Out = fw.accepted.Bytes()
@@ -353,10 +384,10 @@ func checkWriteFaults(res *RunResult, recipe Recipe, model *AP, real *bm.Policy,
 				errKind string
 				flusher bool
 			}{{"string", false, "", false}, {"plain", false, "", false}, {"string", true, "", false}, {"plain", true, "", false},
-				{"string", false, "eof", false}, {"plain", false, "ueof", false}, {"plain", false, "", true}, {"plain", false, "eof", true}} {
+				{"string", false, "eof", false}, {"plain", false, "ueof", false}, {"plain", false, "", true}, {"plain", false, "eof", true}, {"readfrom", false, "", false}} {
 				kind := kp.kind
 				r := RunIO(real, "SanitizeReaderToWriter", input, ReaderScript{FailAt: -1},
-					WriterScript{Kind: kind, FailAt: k, Mode: mode, Partial: kp.partial, ErrKind: kp.errKind, Flusher: kp.flusher})
+					WriterScript{Kind: kind, FailAt: k, Mode: mode, Partial: kp.partial, ErrKind: kp.errKind, Flusher: kp.flusher, ReaderFrom: kind == "readfrom"})
 				res.Execs++
 				what := fmt.Sprintf("write %d of %d fails (%s, %s writer) on %q", k, n, mode, kind, input)
 				if kp.partial {
@@ -389,8 +420,8 @@ func checkReadFaults(res *RunResult, recipe Recipe, model *AP, real *bm.Policy, 
 	for i, off := range offsets {
 		for _, one := range []bool{false, true} {
 			rs := ReaderScript{FailAt: off, OneByte: one, ErrKind: i}
-			for _, kind := range []string{"string", "plain"} {
-				r := RunIO(real, "SanitizeReaderToWriter", input, rs, WriterScript{Kind: kind})
+			for _, kind := range []string{"string", "plain", "readfrom", "flusher"} {
+				r := RunIO(real, "SanitizeReaderToWriter", input, rs, WriterScript{Kind: kind, ReaderFrom: kind == "readfrom", Flusher: kind == "flusher"})
 				res.Execs++
 				if r.Err == nil {
 					res.addViolation(Finding{"C16", "read-error-lost", fmt.Sprintf("source fails at byte %d of %q but SanitizeReaderToWriter (%s writer) returned nil", off, input, kind)}, x, seen)
